@@ -13,11 +13,11 @@ func init() {
 		Name:     "C04",
 		Property: "C04",
 		Gen:      func(g *Gen) *Plan { return swarm(g, genC04(g), 0.25, 0) },
-		Oracles:  []func(o *Outcome) []Violation{oracleC04, livenessOracle("C04")},
+		Oracles:  []func(o *Outcome) []Violation{oracleC04, livenessOracle("C04"), respOracle("C04", "wrong-body", "wrong-key", "unattributable-response")},
 		NonTrivial: func(o *Outcome) bool {
 			return o.Hist.Probes["hit-served"] > 0 && o.Hist.Probes["refetch-after-expiry"] > 0
 		},
-		Rule:         "seeded plans on 1-2 keys: lifetimes 1-6s (and one large), upstream Age absent or valid, 2-4 refetch epochs, requests placed by sleep operations at expiry-1s, the expiry second +-50ms, expiry+1s; half of the runs strictly sequential with the clock moving only between requests (exact oracle), half concurrent with clock actions inside requests (interval oracle); some refetch epochs are uncacheable or fail; a third of the runs have a slow simulated store that keeps the entry lock held while the clock moves. in a quarter of the plans a tenth of the clients disconnect at a scheduler-chosen step (fault client-disconnect). non-trivial = at least one hit and one refetch after expiry; distinct = distinct history hash",
+		Rule:         "seeded plans on 1-2 keys: lifetimes 1-6s (and one large) given by max-age, s-maxage or an s-maxage on a second Cache-Control line, upstream Age absent or valid, a weak ETag that stays the same across epochs on a third of the keys, 2-4 refetch epochs, requests placed by sleep operations at expiry-1s, the expiry second +-50ms, expiry+1s; half of the runs strictly sequential with the clock moving only between requests (exact oracle), half concurrent with clock actions inside requests (interval oracle); some refetch epochs are uncacheable or fail; a third of the runs have a slow simulated store that keeps the entry lock held while the clock moves. in a quarter of the plans a tenth of the clients disconnect at a scheduler-chosen step (fault client-disconnect). non-trivial = at least one hit and one refetch after expiry; distinct = distinct history hash",
 		ExpectProbes: []string{"hit-served", "refetch-after-expiry", "hit-in-expiry-second", "request-in-second-after-expiry", "age-checked"},
 	})
 }
@@ -62,14 +62,23 @@ func genC04(g *Gen) *Plan {
 	lifes := map[string][]int{}
 	for _, k := range keys {
 		var s []Reply
+		sameTag := g.p(0.3)
 		for i := 0; i < epochs+2; i++ {
 			T := g.n(1, 6)
 			if g.p(0.1) {
 				T = 3600
 			}
 			r := cacheable(T, g.n(10, 200))
-			if g.p(0.3) {
+			switch g.n(0, 9) {
+			case 0, 1, 2:
 				r = cacheableS(T, g.n(10, 200))
+			case 3:
+				// the directives arrive on several Cache-Control lines; the deciding one is not the first
+				r.Header = [][2]string{{"Cache-Control", "public, max-age=" + strconv.Itoa(T+30)}, {"Cache-Control", "s-maxage=" + strconv.Itoa(T)}}
+			}
+			if sameTag {
+				// a validator that does not change with the body (weak ETag): every epoch's body is its own
+				r.ETag = `W/"k"`
 			}
 			eff := T
 			if g.p(0.3) && T > 1 {
